@@ -621,6 +621,7 @@ func runC10(c *Check) {
 
 func runC11(c *Check) {
 	p := c.Mod(ModRoot)
+	c.Doc("C11-R5", "VP: the slice handed to the sequencing layer is owned by the hand-off (built in the call, not derived from or stored into longer-lived storage).")
 	c.Doc("C11-R1", "GA: seenStore.Put only after SubmitBatchTxs succeeded; the marked slice is the submitted slice.")
 	c.Doc("C11-R2", "VP: the submitted batch is built by appending, in mempool order, the transactions the seen-store does not have.")
 	c.Doc("C11-R3", "EO: after the batch cursor is written, every path to a return passes the early SaveBlockData or an infrastructure error edge.")
@@ -670,6 +671,43 @@ func runC11(c *Check) {
 				c.OK("C11-R1", "Reaper ⟂ marked=submitted", fn, posOf(g, isPut), "the marked transactions are the elements of the submitted slice", true)
 			} else {
 				c.Bad("C11-R1", "Reaper ⟂ marked=submitted", fn, posOf(g, isPut), "the transactions marked seen are not the elements of the slice that was submitted", nil)
+			}
+			// R5: ownership. The sequencing layer keeps the slice it is handed (the queue stores the
+			// batch as given); the backing array must therefore be owned by this hand-off alone:
+			// not storage of the reaper (or any other object) that a later reap writes again.
+			{
+				var shared []string
+				batchTxs.Walk(func(t *Term) bool {
+					if t.Op == "field" && t.V != nil {
+						if ts := t.V.Type().String(); strings.HasPrefix(ts, "*[]") || strings.HasPrefix(ts, "[]") {
+							shared = append(shared, t.String())
+						}
+					}
+					if t.Op == "global" {
+						shared = append(shared, t.String())
+					}
+					return true
+				})
+				// the field the slice is stored back into keeps the array alive for the next call
+				for _, b := range rp.Blocks {
+					for _, in := range b.Instrs {
+						st, ok := in.(*ssa.Store)
+						if !ok {
+							continue
+						}
+						if fa, ok := st.Addr.(*ssa.FieldAddr); ok && strings.HasPrefix(st.Val.Type().String(), "[][]byte") && fa.X == ssa.Value(rp.Params[0]) {
+							if TermOf(st.Val, g.RootCtx).String() == batchTxs.String() {
+								shared = append(shared, "stored into "+TermOf(fa, g.RootCtx).String())
+							}
+						}
+					}
+				}
+				sort.Strings(shared)
+				if len(shared) == 0 {
+					c.OK("C11-R5", "Reaper ⟂ submitted-slice-is-owned-by-the-hand-off", fn, p.InstrPos(sn.In), "the submitted slice is built in this call and kept by no one else", true)
+				} else {
+					c.Bad("C11-R5", "Reaper ⟂ submitted-slice-is-owned-by-the-hand-off", fn, p.InstrPos(sn.In), "the slice handed to the sequencer shares its backing array with storage that outlives the call ("+strings.Join(shared, ", ")+"): the sequencing layer keeps the slice, so the next reap overwrites a batch that is still queued — its transactions are lost and the later ones included twice", nil)
+				}
 			}
 			// R2: built by append of tx from GetTxs under !has
 			apps := g.Select(func(n *Node) bool { return CallName(n) == "append" && n.Ctx.Depth == 0 })
@@ -862,6 +900,7 @@ func runC11(c *Check) {
 		}
 	}
 	c.MinInstances("C11-R1", 2)
+	c.MinInstances("C11-R5", 1)
 	c.MinInstances("C11-R2", 1)
 	c.MinInstances("C11-R4", 1)
 }
